@@ -101,18 +101,29 @@ CLAIMED = {
              "increasing distance gives hy > 0, the hand-over along a chain is continuous exactly when each later region's list starts at 0, and for every tokamak "
              "table the y-groups (loop variant REGENERATED from Mesh.makeRegions) partition the regions, are linked by `upper`, and start at the lower target or at the "
              "first core region. On every corpus grid: stencils vs the implementation's own distance lists (incl. joins and boundaries), distances vs independent "
-             "three-point circle arcs, monotonicity, origin, continuity, total = circumference, y-groups vs the model.",
-        note="Trusted: Coq kernel; fingerprints + hand model; the arc-length contract of FineContour is monitored (3% threshold, observed <= 1.6%), X-point half cells excluded; "
+             "three-point circle arcs, monotonicity, origin, continuity, total = circumference, y-groups vs the model. "
+             "THE DISTANCE ITSELF IS MODELLED (theories/Model_Quadrature.v, over the arithmetic signature): FineContour.calcDistance (numpy cumsum of segment lengths), the cache update of "
+             "FineContour.reverse, closest_approach, FineContour.getDistance (argmin, neighbour choice, weighting). Theorems over R: calcDistance is the polygon length (0 at the first point, each "
+             "increment the segment length, any number of points), at least the chord between any two points, strictly increasing iff no consecutive points coincide, the TRUE arc length on a "
+             "straight contour however the points are spaced; reverse's cached distance equals recomputation on the reversed points; getDistance lies between the distances of two ADJACENT fine "
+             "points and is exact at a fine point. The PrimFloat instance of the same definitions is run bit for bit against the real methods (240 / 3000 cases per run).",
+        note="Trusted: Coq kernel + Reals axioms (distance theorems); fingerprints + hand models; the arc-length contract of FineContour (polygon vs true arc between fine points) is monitored (3% threshold, observed <= 1.6%), X-point half cells excluded; "
              "quadratic convergence in finecontour_Nfine is not claimed by the quick tier.",
-        technique="Coq proof (list lemmas, finite table evaluation) on a hand model + source fingerprints + grid oracle", design="6/C05"),
+        technique="Coq proof (list lemmas, finite tables; reals for the distance kernels) on hand models + bit-exact PrimFloat correspondence + source fingerprints + grid oracle", design="6/C05"),
     "C06": dict(
         text="Coq theorems: dphidy (REGENERATED from geometry2) = hy*Bt/(Bp*R) = bpsign * d(zShift)/dy; continuity of the hand-over at every join when each region's "
              "increments start at 0; for every tokamak table the periodic chain consists of core regions only (jump location). On every corpus grid: dphidy and "
              "ShiftTorsion formulas exactly at every location, zShift increments vs Simpson's rule with the grid's own arc lengths, zero at the chain start, continuity at "
-             "joins, ShiftAngle = once round all regions of the periodic chain, ShiftAngle finite exactly on closed surfaces. A corpus member with cap_Bp_ylow_xpoint=True and Bp > 0 (C06 only) checks that dphidy is computed from the Bpxy that is written.",
-        note="Trusted: Coq kernel (+ Reals axioms for the dphidy identity); fingerprints of calcZShift; quadrature accuracy monitored (35% threshold away from X-point cells: "
+             "joins, ShiftAngle = once round all regions of the periodic chain, ShiftAngle finite exactly on closed surfaces. A corpus member with cap_Bp_ylow_xpoint=True and Bp > 0 (C06 only) checks that dphidy is computed from the Bpxy that is written. "
+             "THE QUADRATURE ITSELF IS MODELLED (theories/Model_Quadrature.v): the integrand Bt/(R Bp), scipy's cumulative_trapezoid, the shift to the fine contour's startInd, scipy interp1d "
+             "(= numpy.interp with bounds_error), PsiContour.get_distance's monotonicity guard, accumulation onto the value handed over, the hand-over along a y-group and ShiftAngle. Theorems over R: "
+             "the integral grows over each fine segment by the trapezoid and is 0 at startInd; monotone for a field of one sign; interpolation returns node values at nodes and reproduces affine data; "
+             "for a UNIFORM pitch zShift is EXACTLY handed-over value + pitch * poloidal distance for every discretisation of the fine contour and every position of the contour's points; for ANY integrands "
+             "and any number of regions each later region starts from the last y-face value of the region before it. The PrimFloat instance is run bit for bit against the real calcZShift on stub regions "
+             "(whole pipeline incl. calcDistance / getDistance; 120 / 1500 chains per run, refusals included).",
+        note="Trusted: Coq kernel (+ Reals axioms for the dphidy identity and the quadrature theorems); the stub region of the correspondence (real MeshRegion.calcZShift, PsiContour.get_distance, FineContour methods; stub equilibrium functions); quadrature accuracy monitored (35% threshold away from X-point cells: "
              "catches wrong integrands/factors, not small errors); ShiftAngle = 2*pi*q for the circular case is not proved.",
-        technique="Coq proof on translated formula + hand chain model + grid oracle", design="6/C06"),
+        technique="Coq proof on translated formula + hand chain and quadrature models + bit-exact PrimFloat correspondence + grid oracle", design="6/C06"),
     "C07": dict(
         text="Coq theorems over R (Coquelicot) about formulas REGENERATED from calc_curvature and the Equilibrium helper chain: the three closures are the cylindrical "
              "components of curl(B/B^2) of the axisymmetric field for any psi and fpol (is_derive statements under the interpolant contract); grad(x) = grad(psi); the vector "
